@@ -7,7 +7,7 @@
    PARTIAL: group members other than the leader are covered by C08_group_clean only when the group was killed;
    the case where it is not is the known finding recorded by C08_known_finding_straggler. *)
 From Coq Require Import List NArith Bool.
-From WX Require Import Job.JobModel Job.JobInv Job.JobQuit Worker.Quit.
+From WX Require Import Job.JobModel Job.JobInv Job.JobQuit Worker.Quit Gen.Signals_gen Worker.Throttle Worker.SourcePrio.
 Import ListNotations.
 Open Scope N_scope.
 
@@ -60,3 +60,18 @@ Theorem C08_cli_first_quit_is_graceful : forall ss st,
   cli_quit_manner 0 ss st = Graceful (match ss with Some s => s | None => 15 end) st.
 Proof. exact cli_first_quit_is_graceful. Qed.
 Print Assumptions C08_cli_first_quit_is_graceful.
+
+(* the path from the OS signal to the handler's quit request: with the priorities the signal source is translated to use, an
+   interrupt / terminate signal is in a batch the instant the collector receives it -- the filterer is not asked, a debounce window
+   in progress is closed by it -- and the handler that sees it requests the quit (C08_cli_signal_quits) *)
+Theorem C08_quit_signal_reaches_handler : forall t n s R th id v,
+  quit_signal_number t = Some n ->
+  let s' := on_event s (R, th, signal_event id t v) in
+  t_set s' = [] /\ exists b rest, t_out s' = b :: rest /\ b_deliver b = R /\ last (b_ids b) 0 = id.
+Proof. exact quit_signal_reaches_handler. Qed.
+Print Assumptions C08_quit_signal_reaches_handler.
+
+Theorem C08_quit_signal_never_a_filter_error : forall t n id v,
+  quit_signal_number t = Some n -> errors_on (signal_event id t v) = false.
+Proof. exact quit_signal_never_errors. Qed.
+Print Assumptions C08_quit_signal_never_a_filter_error.
